@@ -29,8 +29,10 @@ type c04case struct {
 }
 
 // content of stream position i (since the last Reset) for a content family
-func c04byte(fam string, i int, seeded []byte) byte {
+func c04byte(fam string, i int, seeded []byte, epoch int) byte {
 	switch fam {
+	case "epoch": // constant within one epoch (= stretch between two Resets), different in consecutive epochs
+		return []byte{0x11, 0x22}[epoch%2]
 	case "zero":
 		return 0
 	case "ff":
@@ -41,12 +43,22 @@ func c04byte(fam string, i int, seeded []byte) byte {
 	return seeded[i]
 }
 
-func c04stream(fam string, n int, seeded []byte) []byte {
+func c04stream(fam string, n int, seeded []byte, epoch int) []byte {
 	b := make([]byte, n)
 	for i := range b {
-		b[i] = c04byte(fam, i, seeded)
+		b[i] = c04byte(fam, i, seeded, epoch)
 	}
 	return b
+}
+
+func c04epoch(ops []c04op) int {
+	e := 0
+	for _, op := range ops {
+		if op.K == "R" {
+			e++
+		}
+	}
+	return e
 }
 
 func pointerFree(t reflect.Type) bool {
@@ -94,13 +106,14 @@ type c04machine struct {
 func (m *c04machine) run(ops []c04op, check bool) (hash.Hash, int) {
 	h := sm3.New()
 	n := 0
+	epoch := 0
 	for i, op := range ops {
 		last := check && i == len(ops)-1
 		switch op.K {
 		case "W":
 			data := make([]byte, op.N)
 			for j := range data {
-				data[j] = c04byte(m.fam, n+j, m.seeded)
+				data[j] = c04byte(m.fam, n+j, m.seeded, epoch)
 			}
 			keep := append([]byte{}, data...)
 			got, err := h.Write(data)
@@ -128,19 +141,22 @@ func (m *c04machine) run(ops []c04op, check bool) (hash.Hash, int) {
 			}
 			out := h.Sum(p)
 			if last {
-				want := sm3ref.Sum(c04stream(m.fam, n, m.seeded))
+				want := sm3ref.Sum(c04stream(m.fam, n, m.seeded, epoch))
 				if len(out) != len(p)+32 || !bytes.Equal(out[:len(p)], p) || (len(p) > 0 && !bytes.Equal(p, []byte{1, 2, 3})) {
 					m.r.Violation("sm3:Sum-append", fmt.Sprintf("Sum(prefix variant %d) did not return prefix||digest (len %d)", op.N, len(out)), c04case{m.fam, ops})
 				} else if !bytes.Equal(out[len(p):], want[:]) {
 					m.r.Violation(fmt.Sprintf("sm3:digest:len%%64=%d", n%64), fmt.Sprintf("after %d bytes Sum = %x, GB/T 32905 digest is %x", n, out[len(p):], want), c04case{m.fam, ops})
 				}
 				if m.raw && c04key2(h, m.raw) != before {
-					m.r.Violation("sm3:Sum-mutates", "Sum changed the state of the hash", c04case{m.fam, ops})
+					// not a violation by itself (a correct implementation may cache inside the object): the changed object is a
+					// new state and every continuation from it is explored and digest-checked like any other
+					m.r.Add("observation_Sum_changed_object_memory", 1)
 				}
 			}
 		case "R":
 			h.Reset()
 			n = 0
+			epoch++
 		}
 	}
 	return h, n
@@ -156,7 +172,7 @@ func c04key2(h hash.Hash, raw bool) string {
 }
 
 func TestVX_C04(t *testing.T) {
-	r := vx.Begin("C04", "sm3-history", "explicit-state BFS over the real sm3 hash object: ops W(l) for every l with len+l<=L, S(prefix in {nil, 3 bytes cap 3, 3 bytes cap 64}), R; stream content is position-determined per family (ff, a5, zero constant; seeded positional); dedup key = the full concrete memory of the live object; successor = replay of the shortest op path on a fresh object + 1 op; every state is digest-checked against sm3ref and SumSM3, every transition checks Write's return value, Sum's append contract and that Sum leaves the object unchanged")
+	r := vx.Begin("C04", "sm3-history", "explicit-state BFS over the real sm3 hash object: ops W(l) for every l with len+l<=L, S(prefix in {nil, 3 bytes cap 3, 3 bytes cap 64}), R; stream content is position-determined per family (ff, a5, zero constant; seeded positional; 'epoch': constant between two Resets, alternating 0x11/0x22 from one epoch to the next - every history of <=6 [thorough 8] ops over W{1,9,55,64,65}, S, R); dedup key = the full concrete memory of the live object; successor = replay of the shortest op path on a fresh object + 1 op; every state is digest-checked against sm3ref and SumSM3, every transition checks Write's return value, Sum's append contract; a Sum that changes the object's memory yields a new state whose continuations are explored like any other (recorded as an observation)")
 	defer r.End()
 	if err := refs.SelfCheck(false); err != nil {
 		panic("reference self-check failed (harness broken): " + err.Error())
@@ -172,10 +188,10 @@ func TestVX_C04(t *testing.T) {
 		return
 	}
 	L := 200
-	fams := []string{"ff", "seeded"}
+	fams := []string{"ff", "seeded", "epoch"}
 	if vx.Thorough() {
 		L = 800
-		fams = []string{"ff", "a5", "zero", "seeded"}
+		fams = []string{"ff", "a5", "zero", "seeded", "epoch"}
 	}
 	_, raw := sm3.New().(*sm3.SM3)
 	if raw {
@@ -198,7 +214,13 @@ func TestVX_C04(t *testing.T) {
 		// so it is merged on the observable (length, digest) key - sound because the constant families already visit
 		// every (buffer fill, stale extent) combination
 		famRaw := raw && fam != "seeded"
-		m := &c04machine{r: r, fam: fam, seeded: vx.Fill("sm3stream", L+64), L: L, raw: famRaw}
+		famL := L
+		if fam == "epoch" {
+			// content alternates between two constants from one epoch to the next (so that nothing remembered across a Reset
+			// can go unnoticed); the stale-byte layers multiply the raw-memory states, hence a shorter horizon
+			famL = 200
+		}
+		m := &c04machine{r: r, fam: fam, seeded: vx.Fill("sm3stream", L+64), L: famL, raw: famRaw}
 		type st struct {
 			ops []c04op
 			n   int
@@ -220,10 +242,28 @@ func TestVX_C04(t *testing.T) {
 				break
 			}
 			var succ []c04op
-			for l := 0; cur.n+l <= L; l++ {
-				succ = append(succ, c04op{"W", l})
+			if fam == "epoch" {
+				// every history of at most D operations over a small alphabet (the stale-byte layers of alternating content
+				// make the raw-memory state space of the full alphabet exponential)
+				D := 6
+				if vx.Thorough() {
+					D = 8
+				}
+				if len(cur.ops) >= D {
+					continue
+				}
+				for _, l := range []int{1, 9, 55, 64, 65} {
+					if cur.n+l <= famL {
+						succ = append(succ, c04op{"W", l})
+					}
+				}
+				succ = append(succ, c04op{"S", 0}, c04op{"R", 0})
+			} else {
+				for l := 0; cur.n+l <= famL; l++ {
+					succ = append(succ, c04op{"W", l})
+				}
+				succ = append(succ, c04op{"S", 0}, c04op{"S", 1}, c04op{"S", 2}, c04op{"R", 0})
 			}
-			succ = append(succ, c04op{"S", 0}, c04op{"S", 1}, c04op{"S", 2}, c04op{"R", 0})
 			for _, op := range succ {
 				ops := append(append([]c04op{}, cur.ops...), op)
 				h, n := m.run(ops, true)
@@ -231,6 +271,9 @@ func TestVX_C04(t *testing.T) {
 				r.Validated(1)
 				r.Eval(1)
 				k := c04key(h, n, famRaw)
+				if fam == "epoch" {
+					k += fmt.Sprintf("|e%d", c04epoch(ops)%2) // the next bytes depend on the epoch's parity
+				}
 				if _, ok := seen[k]; ok {
 					continue
 				}
@@ -266,7 +309,7 @@ func sha(s string) []byte {
 
 // checkState applies the state-level oracles when a state is first discovered.
 func (m *c04machine) checkState(h hash.Hash, n int, ops []c04op) {
-	stream := c04stream(m.fam, n, m.seeded)
+	stream := c04stream(m.fam, n, m.seeded, c04epoch(ops))
 	want := sm3ref.Sum(stream)
 	got := h.Sum(nil)
 	if !bytes.Equal(got, want[:]) {
